@@ -78,6 +78,7 @@ def check(ctx):
     ctx.guard("C10.g FIT-ALWAYS-FITS", "wrappers", lambda: fit_always_fits(ctx, det_base, sc_base))
     ctx.guard("C10.b REFIT-BEFORE-EVALUATE", "adapters-with-history", lambda: shared_adapter_history(ctx))
     ctx.guard("C10.a HP-FROZEN", "user-objects", lambda: user_objects_not_reconfigured(ctx))
+    ctx.guard("C10.h NO-PROCESS-STATE", "package", lambda: no_process_state(ctx))
     ctx.expect_min("C10.a HP-FROZEN", sum(1 for o in ctx.obs if o.rule == "C10.a HP-FROZEN" and o.status == "HOLDS"), 15)
     ctx.expect_min("C10.b REFIT-BEFORE-EVALUATE", sum(1 for o in ctx.obs if o.rule == "C10.b REFIT-BEFORE-EVALUATE" and o.status == "HOLDS"), 6)
 
@@ -841,3 +842,110 @@ def check_update(ctx, det_base):
             ctx.check(refits, rule, f"{c.name}|_update-override", f.loc(), "a detector that overrides _update still refits on the combined data", found=[nm for nm, _ in self_calls(f)])
         if "update" in c.methods:
             ctx.violation(rule, f"{c.name}|update-override", c.methods["update"].loc(), "a detector overrides update(): combine-then-refit is no longer guaranteed")
+
+
+# ------------------------------------------------------------- NO-PROCESS-STATE
+
+_MUTATORS = {"append", "extend", "pop", "insert", "remove", "clear", "update", "setdefault", "popitem", "add", "discard", "sort", "reverse", "popleft", "appendleft", "fill", "put", "resize", "__setitem__"}
+_MUTABLE_CTORS = {"list", "dict", "set", "defaultdict", "deque", "OrderedDict", "Counter", "bytearray"}
+
+
+def _is_mutable_ctor(v):
+    if isinstance(v, (ast.List, ast.Dict, ast.Set, ast.ListComp, ast.DictComp, ast.SetComp)):
+        return True
+    if isinstance(v, ast.Call):
+        f = v.func
+        name = f.id if isinstance(f, ast.Name) else (f.attr if isinstance(f, ast.Attribute) else None)
+        if name in _MUTABLE_CTORS:
+            return True
+        # numpy array constructors
+        if isinstance(f, ast.Attribute) and isinstance(f.value, ast.Name) and f.value.id in ("np", "numpy") and f.attr in ("zeros", "ones", "empty", "full", "array", "arange", "zeros_like", "ones_like", "empty_like"):
+            return True
+    return False
+
+
+def _mutations_of(body_owner, name):
+    """nodes in the function that change the object bound to `name` in place (method call, subscript / attribute store,
+    augmented assignment, del of an item) - a plain rebinding `name = ...` is not one"""
+    out = []
+    for n in ast.walk(body_owner):
+        if isinstance(n, ast.Call) and isinstance(n.func, ast.Attribute) and isinstance(n.func.value, ast.Name) and n.func.value.id == name and n.func.attr in _MUTATORS:
+            out.append(n)
+        elif isinstance(n, (ast.Assign, ast.AnnAssign, ast.AugAssign)):
+            tg = n.targets if isinstance(n, ast.Assign) else [n.target]
+            for t in tg:
+                for x in (t.elts if isinstance(t, (ast.Tuple, ast.List)) else [t]):
+                    if isinstance(x, (ast.Subscript, ast.Attribute)) and isinstance(x.value, ast.Name) and x.value.id == name:
+                        out.append(n)
+                    elif isinstance(n, ast.AugAssign) and isinstance(x, ast.Name) and x.id == name:
+                        out.append(n)
+        elif isinstance(n, ast.Delete):
+            for x in n.targets:
+                if isinstance(x, ast.Subscript) and isinstance(x.value, ast.Name) and x.value.id == name:
+                    out.append(n)
+    return out
+
+
+def no_process_state(ctx):
+    """Results are a function of the object's hyper-parameters and the data of the latest fit: nothing survives in the
+    PROCESS between calls.  Three carriers are ruled out over every function of the package: a default argument that is a
+    mutable object and is changed in place (it is created once, at definition time, and shared by all calls), a
+    module-level mutable object changed from inside a function (also through `global`), and a memoising decorator
+    (functools.lru_cache / cache) on a function - results keyed on argument identity or equality outlive the data."""
+    rule = "C10.h NO-PROCESS-STATE"
+    n_funcs = n_defaults = n_globals = 0
+    bad = 0
+    by_module = {}
+    for f in ctx.P.functions.values():
+        by_module.setdefault(f.module.qualname if hasattr(f.module, "qualname") else f.module.relpath, (f.module, []))[1].append(f)
+    for mkey, (mod, funcs) in sorted(by_module.items(), key=lambda kv: kv[0]):
+        if "/tests/" in mod.relpath or mod.relpath.startswith("spec/"):
+            continue
+        tree = mod.tree if hasattr(mod, "tree") else None
+        glob = {}
+        if tree is not None:
+            for st in tree.body:
+                if isinstance(st, (ast.Assign, ast.AnnAssign)) and st.value is not None and _is_mutable_ctor(st.value):
+                    for t in (st.targets if isinstance(st, ast.Assign) else [st.target]):
+                        if isinstance(t, ast.Name) and not (t.id.startswith("__") and t.id.endswith("__")):
+                            glob[t.id] = st
+        n_globals += len(glob)
+        for f in funcs:
+            n_funcs += 1
+            fa = f.node.args
+            pos = fa.posonlyargs + fa.args
+            pairs = list(zip(pos[len(pos) - len(fa.defaults):], fa.defaults)) + [(k, d) for k, d in zip(fa.kwonlyargs, fa.kw_defaults) if d is not None]
+            for prm, d in pairs:
+                n_defaults += 1
+                if _is_mutable_ctor(d):
+                    muts = _mutations_of(f.node, prm.arg)
+                    if muts:
+                        bad += 1
+                        ctx.violation(rule, f"{f.qualname}|default:{prm.arg}", f.loc(muts[0]), f"the default of parameter `{prm.arg}` is a mutable object created once at definition time, and the function changes it in place: what one call leaves in it is seen by the next call of ANY object in the process (earlier data leak into later results)", found=f"{prm.arg}={norm_src(d)[:40]}; {norm_src(muts[0])[:60]}", expected=f"{prm.arg}=None and a fresh object per call, or state owned by the caller")
+            local_names = {a.arg for a in pos + fa.kwonlyargs}
+            declared_global = {nm for n in ast.walk(f.node) if isinstance(n, ast.Global) for nm in n.names}
+            rebound = {t.id for n in ast.walk(f.node) if isinstance(n, (ast.Assign, ast.AnnAssign, ast.AugAssign, ast.For)) for t in ast.walk(n.targets[0] if isinstance(n, ast.Assign) else n.target) if isinstance(t, ast.Name) and isinstance(t.ctx, ast.Store)}
+            for g, gst in glob.items():
+                if g in local_names or (g in rebound and g not in declared_global):
+                    continue  # shadowed by a local of the same name
+                muts = _mutations_of(f.node, g)
+                if g in declared_global:
+                    muts = muts + [n for n in ast.walk(f.node) if isinstance(n, (ast.Assign, ast.AugAssign)) and any(isinstance(t, ast.Name) and t.id == g for t in (n.targets if isinstance(n, ast.Assign) else [n.target]))]
+                if muts:
+                    bad += 1
+                    ctx.violation(rule, f"{f.qualname}|global:{g}", f.loc(muts[0]), f"the module-level object `{g}` is changed from inside a function: state that outlives every fit and is shared by all objects of the process", found=norm_src(muts[0])[:80], expected="state held in fitted attributes of the object (reset by fit)")
+            for n in ast.walk(f.node):
+                if isinstance(n, ast.Global):
+                    for nm in n.names:
+                        if nm not in glob and any(isinstance(x, (ast.Assign, ast.AugAssign)) and any(isinstance(t, ast.Name) and t.id == nm for t in (x.targets if isinstance(x, ast.Assign) else [x.target])) for x in ast.walk(f.node)):
+                            bad += 1
+                            ctx.violation(rule, f"{f.qualname}|global:{nm}", f.loc(n), f"`global {nm}` is assigned inside a function: state that outlives every fit and is shared by all objects of the process", found=norm_src(n))
+            for d in getattr(f.node, "decorator_list", []):
+                txt = norm_src(d)
+                if any(w in txt for w in ("lru_cache", "functools.cache", "cached_property")) or txt in ("cache", "cache()"):
+                    bad += 1
+                    ctx.violation(rule, f"{f.qualname}|memoised", f.loc(d), "a memoising decorator keeps results across calls: arrays are keyed by identity or not hashable at all, objects by identity - results computed for earlier data (or an earlier object at the same address) are returned later", found=txt[:60])
+    ctx.stats["constructs"] = ctx.stats.get("constructs", 0) + n_funcs
+    if not bad:
+        ctx.holds(rule, "package", "skchange/", f"{n_funcs} functions, {n_defaults} default values and {n_globals} module-level mutable objects inspected: no mutable default changed in place, no module-level object changed from a function, no memoised function")
+    ctx.expect_min(rule, n_funcs, 150)
